@@ -366,6 +366,9 @@ class CStr(Sym):
         out = []
         first = True
         for it in items:
+            if isinstance(it, (int, float)) or type(it).__name__ in ('SInt', 'SBool'):
+                # str.join / bytes.join refuse numbers (iterating a bytes value yields its integers)
+                raise TypeError('sequence item: expected %s instance, int found' % ('a bytes-like object' if s.is_bytes else 'str'))
             if not first:
                 out += s.c
             out += CStr.of(it).c
